@@ -91,12 +91,21 @@ class C02(Prop):
         n = 40
         ops40 = []
         for i in range(n):
+            for l in (1, 2, 3):
+                w = [0] * n + [rng.randrange(4)]
+                w[i] = l
+                ops40.append(w)
             for j in range(i + 1, n):
                 w = [0] * n + [rng.randrange(4)]
                 w[i], w[j] = rng.randrange(1, 4), rng.randrange(1, 4)
                 ops40.append(w)
+        for _ in range(500):
+            w = [0] * n + [rng.randrange(4)]
+            for q in rng.sample(range(n), 3):
+                w[q] = rng.randrange(1, 4)
+            ops40.append(w)
         rng.shuffle(ops40)
-        ops40 = ops40[:1100]
+        ops40 = ops40[:1250]
         for t in range(3):
             g = [rng.randrange(4) if (t == 0 or rng.random() < 0.15) else 0 for _ in range(n)] + [rng.choice((0, 2))]
             g[35] = g[35] or 2
